@@ -113,36 +113,19 @@ def _patched(mod, name, fn):
         setattr(mod, name, orig)
 
 
-def run_append(n, groups, names, order, cutoff, minr, stab, fast, record=True):
-    """LFQIntensityColumns(...).append on one ProteinGroupResults holding `groups`.
-    names[s] = name of sample s;  order = list of samples in the order of `experiments`
-    (column c of the output belongs to sample order[c]).  Returns (per-group outputs re-indexed by
-    sample, recording)."""
-    import numpy as np
+@contextlib.contextmanager
+def recording(rec):
+    """recording wrappers around the helper functions of columns/lfq.py and fastlfq.prune_graph; fills
+    rec["groups"] (one dict per _getLFQIntensities call, in call order) and rec["graph"]"""
     from picked_group_fdr.columns import fastlfq, lfq
-    from picked_group_fdr.precursor_quant import PrecursorQuant
-    from picked_group_fdr.results import ProteinGroupResult, ProteinGroupResults
 
-    pgrs = []
-    eid = 0
-    for g in groups:
-        pqs = []
-        for (pep, ch, s, frac, inten, q) in g:
-            pqs.append(PrecursorQuant(pep, ch, names[s], frac, fl(inten), dec_pep(q), None, None, eid))
-            eid += 1
-        pgrs.append(ProteinGroupResult(proteinIds="P%d" % len(pgrs), qValue=0.0, score=1.0, precursorQuants=pqs))
-    res = ProteinGroupResults(pgrs)
-    res.experiments = [names[s] for s in order]
-    res.num_tmt_channels = 0
-    res.num_silac_channels = 0
-
-    rec = {"groups": [], "graph": None}
     cur = {}
 
     def w_top(orig):
         def f(*a, **k):
             cur.clear()
             out = orig(*a, **k)
+            cur["out"] = [float(x) for x in out]
             rec["groups"].append(dict(cur))
             return out
 
@@ -198,16 +181,46 @@ def run_append(n, groups, names, order, cutoff, minr, stab, fast, record=True):
 
         return f
 
+    with contextlib.ExitStack() as st:
+        st.enter_context(_patched(lfq, "_getLFQIntensities", w_top))
+        st.enter_context(_patched(lfq, "_getPeptideIntensities", w_pi))
+        st.enter_context(_patched(lfq, "_getLogMedianPeptideRatios", w_ratios))
+        st.enter_context(_patched(lfq, "_applyLargeRatioStabilization", w_stab))
+        st.enter_context(_patched(lfq, "_buildLinearSystem", w_sys))
+        st.enter_context(_patched(lfq, "lsqr", w_lsqr))
+        st.enter_context(_patched(fastlfq, "prune_graph", w_prune))
+        yield rec
+
+
+def run_append(n, groups, names, order, cutoff, minr, stab, fast, record=True):
+    """LFQIntensityColumns(...).append on one ProteinGroupResults holding `groups`.
+    names[s] = name of sample s;  order = list of samples in the order of `experiments`
+    (column c of the output belongs to sample order[c]).  Returns (per-group outputs re-indexed by
+    sample, recording)."""
+    import numpy as np
+    from picked_group_fdr.columns import fastlfq, lfq
+    from picked_group_fdr.precursor_quant import PrecursorQuant
+    from picked_group_fdr.results import ProteinGroupResult, ProteinGroupResults
+
+    pgrs = []
+    eid = 0
+    for g in groups:
+        pqs = []
+        for (pep, ch, s, frac, inten, q) in g:
+            pqs.append(PrecursorQuant(pep, ch, names[s], frac, fl(inten), dec_pep(q), None, None, eid))
+            eid += 1
+        pgrs.append(ProteinGroupResult(proteinIds="P%d" % len(pgrs), qValue=0.0, score=1.0, precursorQuants=pqs))
+    res = ProteinGroupResults(pgrs)
+    res.experiments = [names[s] for s in order]
+    res.num_tmt_channels = 0
+    res.num_silac_channels = 0
+
+    rec = {"groups": [], "graph": None}
+
     col = lfq.LFQIntensityColumns(minr, stab, fast_lfq=fast)
     with contextlib.ExitStack() as st:
         if record:
-            st.enter_context(_patched(lfq, "_getLFQIntensities", w_top))
-            st.enter_context(_patched(lfq, "_getPeptideIntensities", w_pi))
-            st.enter_context(_patched(lfq, "_getLogMedianPeptideRatios", w_ratios))
-            st.enter_context(_patched(lfq, "_applyLargeRatioStabilization", w_stab))
-            st.enter_context(_patched(lfq, "_buildLinearSystem", w_sys))
-            st.enter_context(_patched(lfq, "lsqr", w_lsqr))
-            st.enter_context(_patched(fastlfq, "prune_graph", w_prune))
+            st.enter_context(recording(rec))
         col.append(res, fl(cutoff))
     outs = []
     for pgr in pgrs:
@@ -256,11 +269,17 @@ def fmedian(xs):
     return (s[k // 2 - 1] + s[k // 2]) / 2
 
 
-def spec(n, group, cutoff, minr, stab, graph):
-    """what MaxLFQ is specified to compute for one protein group; graph = list of edges or None"""
+def spec(n, group, cutoff, minr, stab, graph, stab_group=None):
+    """what MaxLFQ is specified to compute for one protein group; graph = list of edges or None;
+    stab_group = the precursors the summed intensities / peptide counts of the large-ratio stabilisation are
+    taken from when they are not `group` itself (SILAC: all rows, not only the selected ones)"""
     cutoff = cutoff if isinstance(cutoff, Fraction) else unrat(cutoff)
     P = [(pep, ch, s, fr, unrat(i), (None if q == "nan" else unrat(q))) for (pep, ch, s, fr, i, q) in group]
     ident = [p for p in P if p[5] is None or p[5] <= cutoff]
+    ident_stab = ident
+    if stab_group is not None:
+        PS = [(pep, ch, s, fr, unrat(i), (None if q == "nan" else unrat(q))) for (pep, ch, s, fr, i, q) in stab_group]
+        ident_stab = [p for p in PS if p[5] is None or p[5] <= cutoff]
     best = {}
     for p in ident:
         if p[4] > 0:
@@ -280,8 +299,8 @@ def spec(n, group, cutoff, minr, stab, graph):
         for u, v in graph:
             E.add((u, v))
             E.add((v, u))
-    si = [sum((p[4] for p in ident if p[2] == s), Fraction(0)) for s in range(n)]
-    pc = [len({p[0] for p in ident if p[2] == s}) for s in range(n)]
+    si = [sum((p[4] for p in ident_stab if p[2] == s), Fraction(0)) for s in range(n)]
+    pc = [len({p[0] for p in ident_stab if p[2] == s}) for s in range(n)]
     eqs = []
     for i, j in itertools.combinations(valid, 2):
         if active and (i, j) not in E:
@@ -358,9 +377,12 @@ def ls_tolerance(n, group, cutoff, minr, stab, graph):
     return TOL_META + 2.0 * expected_log(n, sp)[3]
 
 
-def check_group_direct(n, group, cutoff, minr, stab, graph, out, gfac=None):
-    """the property on one group's LFQ output; returns None or a reason"""
-    sp = spec(n, group, cutoff, minr, stab, graph)
+def check_group_direct(n, group, cutoff, minr, stab, graph, out, gfac=None, slack=0.0, stab_group=None, label=None):
+    """the property on one group's LFQ output; returns None or a reason.  slack = absolute error of every
+    entry of `out` (0.5 for values read back from a table written with '%.0f'); label(s) = how sample s is
+    called in messages"""
+    label = label or (lambda s: "%d" % s)
+    sp = spec(n, group, cutoff, minr, stab, graph, stab_group)
     tot = fl(sp["total"])
     if len(out) != n:
         return "LFQ vector has %d entries for %d samples" % (len(out), n)
@@ -374,20 +396,20 @@ def check_group_direct(n, group, cutoff, minr, stab, graph, out, gfac=None):
     tol_ls = TOL_META + 2.0 * bound
     for z in zero:
         if out[z] != 0:
-            return "sample %d has no valid pairwise ratio but LFQ %r != 0" % (z, out[z])
+            return "sample %s has no valid pairwise ratio but LFQ %r != 0" % (label(z), out[z])
     for s in seen:
         if not out[s] > 0:
-            return "sample %d has valid ratios but LFQ %r" % (s, out[s])
+            return "sample %s has valid ratios but LFQ %r" % (label(s), out[s])
     ssum = math.fsum(out)
-    if not close(ssum, tot, TOL_META):
+    if not (close(ssum, tot, TOL_META) or abs(ssum - tot) <= TOL_META * tot + slack * n):
         return "LFQ intensities sum to %r, the summed intensity of the peptides used is %r" % (ssum, tot)
     for comp in components(n, sp["eqs"]):
         a = comp[0]
         for c in comp[1:]:
             got = math.log(out[c]) - math.log(out[a])
             want = y[c] - y[a]
-            if not abs(got - want) <= tol_ls:
-                return "log ratio of linked samples %d/%d is %r, least-squares solution of the median ratios gives %r" % (c, a, got, want)
+            if not abs(got - want) <= tol_ls + 2.0 * slack / min(out[c], out[a]):
+                return "log ratio of linked samples %s/%s is %r, least-squares solution of the median ratios gives %r" % (label(c), label(a), got, want)
     if gfac is not None and len(seen) == n and len(components(n, sp["eqs"])) == 1 and all(e["w"] == 0 for e in sp["eqs"]):
         g = [Fraction(x) for x in gfac]
         consistent = True
@@ -399,15 +421,15 @@ def check_group_direct(n, group, cutoff, minr, stab, graph, out, gfac=None):
             G = sum(g)
             for s in range(n):
                 want = fl(sp["total"] * g[s] / G)
-                if not close(out[s], want, tol_ls):
-                    return "consistent data (I = f_p * g_s), connected: LFQ[%d] = %r, expected total*g/sum(g) = %r" % (s, out[s], want)
+                if not (close(out[s], want, tol_ls) or abs(out[s] - want) <= tol_ls * want + slack):
+                    return "consistent data (I = f_p * g_s), connected: LFQ[%s] = %r, expected total*g/sum(g) = %r" % (label(s), out[s], want)
     return None
 
 
 TOL_CONSISTENT = 1e-3  # relative; the statement below holds whatever sample graph FastLFQ uses
 
 
-def check_consistent_all_pairs(n, group, cutoff, minr, stab, out, gfac):
+def check_consistent_all_pairs(n, group, cutoff, minr, stab, out, gfac, slack=0.0, stab_group=None, label=None):
     """The first sentence of the property, stated WITHOUT the sample graph the implementation used: if the
     selected intensities are exactly f_p * g_s, every sample is valid and EVERY pair of samples shares
     >= minr (>= 1) peptides (so the samples are connected by enough shared peptides whichever subset of the
@@ -415,7 +437,8 @@ def check_consistent_all_pairs(n, group, cutoff, minr, stab, out, gfac):
     then LFQ[s] = total * g_s / sum(g) (relative 1e-3).  Returns (hypotheses hold, None or a reason)."""
     if gfac is None or n < 2 or len(out) != n:
         return False, None
-    sp = spec(n, group, cutoff, minr, stab, None)  # graph None: all pairs with enough shared peptides
+    label = label or (lambda s: "%d" % s)
+    sp = spec(n, group, cutoff, minr, stab, None, stab_group)  # graph None: all pairs with enough shared peptides
     if len(sp["valid"]) != n or len(sp["eqs"]) != n * (n - 1) // 2:
         return False, None
     if any(e["w"] != 0 for e in sp["eqs"]):
@@ -425,16 +448,17 @@ def check_consistent_all_pairs(n, group, cutoff, minr, stab, out, gfac):
         if len({sp["I"][k][s] / g[s] for s in range(n) if sp["I"][k][s] > 0}) > 1:
             return False, None
     G = sum(g)
-    bad = [s for s in range(n) if not close(out[s], fl(sp["total"] * g[s] / G), TOL_CONSISTENT)]
+    bad = [s for s in range(n) if not (close(out[s], fl(sp["total"] * g[s] / G), TOL_CONSISTENT)
+                                       or abs(out[s] - fl(sp["total"] * g[s] / G)) <= TOL_CONSISTENT * fl(sp["total"] * g[s] / G) + slack)]
     if bad:
         s = bad[0]
         dev = [(out[x] / fl(sp["total"] * g[x] / G)) if out[x] > 0 else 0.0 for x in range(n)]
         t = max(range(n), key=lambda x: dev[x])  # the two samples whose ratio is most wrong
         u = min(range(n), key=lambda x: dev[x])
         return True, (
-            "consistent data (I = f_p * g_s), every pair of the %d samples shares >= %d peptides: LFQ[%d] = %r, expected "
-            "total*g/sum(g) = %r (%d of %d samples off by more than 1e-3; LFQ ratio of samples %d/%d is %r, sample factors give %r)"
-            % (n, max(minr, 1), s, out[s], fl(sp["total"] * g[s] / G), len(bad), n, t, u,
+            "consistent data (I = f_p * g_s), every pair of the %d samples shares >= %d peptides: LFQ[%s] = %r, expected "
+            "total*g/sum(g) = %r (%d of %d samples off by more than 1e-3; LFQ ratio of samples %s/%s is %r, sample factors give %r)"
+            % (n, max(minr, 1), label(s), out[s], fl(sp["total"] * g[s] / G), len(bad), n, label(t), label(u),
                (out[t] / out[u]) if out[u] else float("inf"), fl(g[t] / g[u]))
         )
     return True, None
@@ -486,6 +510,240 @@ def check_graph_contract(nodes, full, pnodes, pruned):
 
 def vec_close(a, b, tol):
     return len(a) == len(b) and all(close(x, y, tol) or (abs(x - y) <= tol * 1e-6) for x, y in zip(a, b))
+
+
+# --------------------------------------------------------------------------------------------------
+# the WRITTEN table: python -m picked_group_fdr.quantification on generated evidence files
+# (fractions, SILAC channels, experimental design / file list overrides), read back BY HEADER NAME
+# --------------------------------------------------------------------------------------------------
+SILAC_NAMES = {0: [], 2: ["L", "H"], 3: ["L", "M", "H"]}
+TABLE_SLACK = 0.5  # '%.0f'
+PG_HEADERS = ["Protein IDs", "Majority protein IDs", "Peptide counts (unique)", "Best peptide", "Number of proteins",
+              "Q-value", "Score", "Reverse", "Potential contaminant"]
+
+
+def lfq_header(exp, ch=None):
+    return "LFQ Intensity " + (ch + " " if ch is not None else "") + exp
+
+
+def num_text(r):
+    """an exact rational as the text of an evidence cell (the generated values are integers or short decimals)"""
+    f = unrat(r)
+    if f.denominator == 1:
+        return str(f.numerator)
+    return repr(f.numerator / f.denominator)
+
+
+def table_design(case):
+    """the (experiment, fraction) of every raw file as the design defines it, and the experiments in the order
+    pandas' unique() gives (first appearance); None without a design.  Independent of the implementation."""
+    d = case.get("design")
+    if not d:
+        return None, None
+    m, exps = {}, []
+    for name, exp, frac in d["lines"]:
+        stem = name[:-4] if name.endswith(".raw") else name
+        m[stem] = (exp, -1 if frac is None else frac)
+        if exp not in exps:
+            exps.append(exp)
+    return m, exps
+
+
+def table_samples(case):
+    """experiments in column order and the per-row (experiment, fraction) assignment, from the case alone"""
+    m, exps = table_design(case)
+    rows = [r for g in case["groups"] for r in g["rows"]]
+    if m is None:
+        exps = sorted({r[3] for r in rows})
+        where = lambda r: (r[3], r[4] if case["fraction_col"] else -1)
+    else:
+        where = lambda r: m[r[2]]
+    return exps, where
+
+
+def table_cutoff(case):
+    """fdr.calc_post_err_prob_cutoff on the finite PEPs of all rows (the subject of C17; replicated literally)"""
+    peps = sorted(fl(r[7]) for g in case["groups"] for r in g["rows"] if r[7] != "nan")
+    level = fl(case["psm_fdr"])
+    tot, k = 0.0, 0
+    for q in peps:
+        tot += q
+        k += 1
+        if tot / k > level:
+            return Fraction(*q.as_integer_ratio())
+    return Fraction(1)
+
+
+def table_precursors(case, group, cutoff):
+    """the oracle's own reading of one protein group's evidence rows: (selected per-sample precursors, all
+    retained per-sample precursors) in the 6-field form of `spec`, samples numbered experiment-major with the
+    channel inside.  Rows of a (peptide, charge) without any PEP <= cutoff are dropped first
+    (writers/base._retain_only_identified_precursors); with SILAC the best row of a
+    (peptide, charge, experiment, fraction) — highest Intensity — contributes its channel intensities."""
+    C = case["channels"]
+    exps, where = table_samples(case)
+    ident = {(r[0], r[1]) for r in group["rows"] if r[7] != "nan" and unrat(r[7]) <= cutoff}
+    rows = [r for r in group["rows"] if (r[0], r[1]) in ident]
+    if C == 0:
+        allp = [[r[0], r[1], exps.index(where(r)[0]), where(r)[1], r[5], r[7]] for r in rows]
+        return allp, allp
+    best = {}
+    for r in rows:
+        if unrat(r[5]) > 0 and (r[7] == "nan" or unrat(r[7]) <= cutoff):
+            e, f = where(r)
+            k = (r[0], r[1], e, f)
+            if k not in best or unrat(r[5]) > unrat(best[k][5]):
+                best[k] = r
+
+    def expand(r):
+        e, f = where(r)
+        return [[r[0], r[1], exps.index(e) * C + c, f, r[6][c], r[7]] for c in range(C)]
+
+    sel = [x for k in sorted(best) for x in expand(best[k])]
+    allp = [x for r in rows for x in expand(r)]
+    return sel, allp
+
+
+def write_table_inputs(case, d):
+    """evidence.txt, proteinGroups.txt, peptide map and (optionally) the design file of a table case; returns argv"""
+    import csv
+    import os
+
+    C = case["channels"]
+    ev, pg, mp, out = (os.path.join(d, x) for x in ("evidence.txt", "proteinGroups.txt", "map.txt", "out.txt"))
+    cols = ["Modified sequence", "Leading proteins", "Leading razor protein", "PEP", "Score", "Experiment", "Charge",
+            "Intensity", "Raw file", "id"] + ["Intensity " + c for c in SILAC_NAMES[C]]
+    if case["fraction_col"]:
+        cols.append("Fraction")
+    cols = [cols[i] for i in case["col_order"]] if case.get("col_order") else cols
+    recs = []
+    for g in case["groups"]:
+        for r in g["rows"]:
+            rec = {"Modified sequence": "_" + r[0] + "_", "Leading proteins": g["id"], "Leading razor protein": g["id"],
+                   "PEP": "" if r[7] == "nan" else repr(fl(r[7])), "Score": "100", "Experiment": r[3], "Charge": str(r[1]),
+                   "Intensity": num_text(r[5]), "Raw file": r[2], "Fraction": str(r[4])}
+            for c, name in enumerate(SILAC_NAMES[C]):
+                rec["Intensity " + name] = "" if (case.get("empty_zero") and unrat(r[6][c]) == 0) else num_text(r[6][c])
+            recs.append((r[8], rec))
+    recs.sort(key=lambda x: x[0])  # r[8] = position of the row in the evidence file
+    with open(ev, "w", newline="") as f:
+        w = csv.writer(f, delimiter="\t")
+        w.writerow(cols)
+        for i, (_, rec) in enumerate(recs):
+            rec["id"] = str(i)
+            w.writerow([rec[c] for c in cols])
+    with open(mp, "w", newline="") as f:
+        w = csv.writer(f, delimiter="\t")
+        for g in case["groups"]:
+            for pep in sorted({r[0] for r in g["rows"]}):
+                w.writerow([pep, g["id"]])
+    with open(pg, "w", newline="") as f:
+        w = csv.writer(f, delimiter="\t")
+        w.writerow(PG_HEADERS)
+        for g in case["groups"]:
+            w.writerow([g["id"], g["id"], str(len({r[0] for r in g["rows"]})), "", 1, 0.001, 10.0, "", ""])
+    argv = ["--mq_evidence", ev, "--mq_protein_groups", pg, "--peptide_protein_map", mp, "--protein_groups_out", out,
+            "--lfq_min_peptide_ratios", str(case["minr"]), "--psm_fdr_cutoff", repr(fl(case["psm_fdr"]))]
+    if not case["stab"]:
+        argv.append("--lfq_stabilize_large_ratios")  # store_false: the flag switches the option OFF
+    if not case["fast"]:
+        argv.append("--fast_lfq")
+    dz = case.get("design")
+    if dz:
+        df = os.path.join(d, "design.txt")
+        with open(df, "w", newline="") as f:
+            w = csv.writer(f, delimiter="\t")
+            if dz["format"] == "design":
+                w.writerow(["Name", "Fraction", "Experiment", "PTM"])
+                for name, exp, frac in dz["lines"]:
+                    w.writerow([name, "" if frac is None else frac, exp, "False"])
+            else:
+                for name, exp, frac in dz["lines"]:
+                    w.writerow([name, "cond_" + exp, exp] + ([] if frac is None else [frac]))
+        argv += ["--experimental_design_file" if dz["format"] == "design" else "--file_list_file", df]
+    return argv, out
+
+
+def read_table(path):
+    import csv
+
+    with open(path, newline="") as f:
+        t = list(csv.reader(f, delimiter="\t"))
+    return t[0], t[1:]
+
+
+def run_table(case):
+    """quantification.main(argv) in-process with the recording wrappers (via = "inproc"), or
+    `python -m picked_group_fdr.quantification` as a subprocess (via = "cli"); the LFQ columns are read back
+    from the written file BY HEADER NAME"""
+    import shutil
+    import subprocess
+    import tempfile
+
+    d = tempfile.mkdtemp(prefix="c11tab_")
+    try:
+        argv, out = write_table_inputs(case, d)
+        rec = {"groups": [], "graph": None}
+        seen = {}
+        if case.get("via") == "cli":
+            p = subprocess.run([lib.PY, "-m", "picked_group_fdr.quantification"] + argv, env=lib.impl_env(), cwd=d,
+                               capture_output=True, text=True, timeout=600)
+            if p.returncode != 0:
+                raise AssertionError("quantification CLI exited with %d: %s" % (p.returncode, p.stderr[-400:]))
+        else:
+            from picked_group_fdr import quantification
+            from picked_group_fdr.columns import lfq
+
+            def w_append(orig):
+                def f(self, protein_group_results, post_err_prob_cutoff):
+                    seen["experiments"] = list(protein_group_results.experiments)
+                    seen["channels"] = int(protein_group_results.num_silac_channels)
+                    seen["cutoff"] = float(post_err_prob_cutoff)
+                    seen["ids"] = [pgr.proteinIds for pgr in protein_group_results]
+                    return orig(self, protein_group_results, post_err_prob_cutoff)
+
+                return f
+
+            def w_triqler(orig):
+                # writers/factory.py hands the PATH given as --file_list_file to init_triqler_params, which expects the
+                # parsed data frame (TypeError; observation recorded in notes/C12.md, outside C11): without a design
+                # Triqler is skipped, which is also what happens for every design of these cases
+                return lambda design: orig(None if isinstance(design, str) else design)
+
+            from picked_group_fdr.writers import factory
+
+            with recording(rec), _patched(lfq.LFQIntensityColumns, "append_columns", w_append), _patched(factory, "init_triqler_params", w_triqler):
+                quantification.main(argv)
+        header, body = read_table(out)
+    finally:
+        shutil.rmtree(d, ignore_errors=True)
+    return header, body, rec, seen
+
+
+def table_group_named(header, row):
+    """the LFQ cells of one written row, in header order, as [[header, text]]"""
+    return [[h, row[i]] for i, h in enumerate(header) if h.startswith("LFQ Intensity ")]
+
+
+def impl_group_view(r, stab):
+    """the recorded stage-A data of one _getLFQIntensities call in comparable form"""
+    g = {}
+    g["rows"] = sorted([k[0], k[1], [rat(x) for x in v]] for k, v in r.get("rows", {}).items())
+    g["total"] = rat(r.get("total", 0.0))
+    if "ratios" in r:
+        g["ratios"] = sorted([int(i), int(j), v] for (i, j), v in r["ratios"].items())
+        g["pairs"] = sorted([int(i), int(j)] for (i, j) in r["ratios"])
+    else:
+        g["ratios"], g["pairs"] = [], []
+    bb = r.get("b", r.get("ratios", {})) if stab else r.get("ratios", {})
+    g["b"] = sorted([int(i), int(j), v] for (i, j), v in bb.items())
+    if "matrix" in r:
+        g["matrix"] = sorted(r["matrix"])
+        g["vector"] = r["vector"]
+    else:
+        g["matrix"] = None
+    g["cert"] = True
+    return g
 
 
 # --------------------------------------------------------------------------------------------------
@@ -612,12 +870,128 @@ class P(Prop):
             samples.append(sorted(set(x)))
         return {"kind": "graph", "samples": samples, "min_neighbors": rng.choice([1, 2, 3, 3, 3, 5]), "avg_neighbors": rng.choice([2, 4, 6, 6, 6, 9])}
 
+    TABLE_SHARE = 0.16
+    TABLE_NAMES = NAME_SCHEMES + [lambda i: "tissue %d" % (9 - i) if i < 10 else "tissue x%d" % i, lambda i: ["liver", "brain", "serum", "heart", "colon", "aorta", "ovary", "lung", "skin", "bone", "gut", "eye"][i % 12] + ("" if i < 12 else str(i))]
+
+    def gen_table_case(self, rng):
+        """one run of the quantification command line: evidence.txt with 2-11 experiments, label-free or SILAC
+        (2 / 3 channels), optionally a Fraction column with precursors split over 1-3 fractions of an experiment
+        (splits differing per experiment), optionally an experimental design / file list overriding experiment and
+        fraction by raw file; multiplicative data (peptide factor x sample factor, exact integers) with optional
+        noise, missing values, zeroed channels, duplicates of lower intensity, PEPs around the cutoff, MBR rows"""
+        C = rng.choice([0, 0, 0, 2, 2, 3])
+        use_frac = rng.random() < (0.7 if C == 0 else 0.35)
+        nexp = rng.choice([2, 3, 3, 4, 5, 6] if C else [2, 3, 3, 4, 5, 6, 8, 11])
+        scheme = rng.choice(self.TABLE_NAMES)
+        exps = [scheme(i) for i in range(nexp)]
+        nfr = rng.choice([2, 3, 3]) if use_frac else 0
+        design = None
+        if rng.random() < 0.4:
+            design = {"format": rng.choice(["design", "filelist"]), "lines": []}
+        garbage_exp = design is not None and rng.random() < 0.5
+        garbage_frac = design is not None and use_frac and rng.random() < 0.5
+        fraction_col = use_frac and (design is None or rng.random() < 0.6)
+        noise = rng.random() < 0.4
+        miss = rng.choice([0.0, 0.0, 0.1, 0.3])
+        use_dups = rng.random() < 0.35
+        AA = "ACDEFGHILMNQSTVWY"
+        raws = {}
+
+        def raw_of(ei, fr):
+            if (ei, fr) not in raws:
+                raws[(ei, fr)] = "r%dq%d" % (len(raws) + 1, rng.randint(10, 99))
+            return raws[(ei, fr)]
+
+        groups = []
+        pid = 0
+        pos = 0
+        W = 12
+        for gi in range(rng.choice([1, 2, 2, 3])):
+            b = {e: [rng.randint(100, 1000) for _ in range(max(1, C))] for e in exps}
+            rows = []
+            npep = rng.randint(2, 7)
+            for _p in range(npep):
+                pep = "PEP%s%sK" % (AA[pid % 17], AA[(pid // 17) % 17])
+                pid += 1
+                for ch in ([2] if rng.random() < 0.75 else [2, 3]):
+                    f = rng.randint(1, 50)
+                    fracs = [-1] if not use_frac else sorted(rng.sample(range(1, nfr + 1), rng.randint(1, nfr)))
+                    for ei, e in enumerate(exps):
+                        if rng.random() < miss:
+                            continue
+                        # the split of the precursor over its fractions differs from experiment to experiment
+                        cuts = sorted(rng.randint(1, W - 1) for _ in range(len(fracs) - 1))
+                        ws = [hi - lo for lo, hi in zip([0] + cuts, cuts + [W])]
+                        zero_ch = rng.randrange(C) if C and rng.random() < 0.15 else None
+                        for fr, w in zip(fracs, ws):
+                            if w == 0:
+                                continue
+                            vals = [f * b[e][c] * w * 10 for c in range(max(1, C))]
+                            if noise:
+                                vals = [int(v * math.exp(rng.gauss(0, 0.3))) + 1 for v in vals]
+                            if zero_ch is not None:
+                                vals[zero_ch] = 0
+                            r = rng.random()
+                            q = rng.choice([Fraction(1, 1000), Fraction(1, 10000)])
+                            if r < 0.08:
+                                q = rng.choice(PEP_GRID)
+                            elif r < 0.11:
+                                vals = [0] * len(vals)
+                            todo = [(vals, q)]
+                            if use_dups and rng.random() < 0.15 and sum(vals) > 100:
+                                dd = rng.choice([2, 3, 7])
+                                todo.append(([v // dd for v in vals], rng.choice(PEP_GRID)))
+                            for vv, qq in todo:
+                                rows.append([pep, ch, raw_of(ei, fr),
+                                             ("X%d" % (ei % 2)) if garbage_exp else e,
+                                             (1 if garbage_frac else fr) if fraction_col else -1,
+                                             rat(sum(vv)), [rat(v) for v in vv] if C else [],
+                                             "nan" if qq == "nan" else rat(qq), 0])
+            if not rows:
+                continue
+            groups.append({"id": "P%d" % (gi + 1), "rows": rows, "b": b})
+        if not groups:
+            return self.gen_table_case(rng)
+        allrows = [r for g in groups for r in g["rows"]]
+        order = list(range(len(allrows)))
+        rng.shuffle(order)
+        for r, k in zip(allrows, order):
+            r[8] = k
+        if design is not None:
+            lines = [[name + (".raw" if rng.random() < 0.3 else ""), exps[ei], (fr if use_frac else None)] for (ei, fr), name in raws.items()]
+            if rng.random() < 0.25:
+                lines.append(["unusedfile", "zz unused" if rng.random() < 0.5 else "a0", (1 if use_frac else None)])
+            rng.shuffle(lines)
+            design["lines"] = lines
+        ncols = 10 + len(SILAC_NAMES[C]) + (1 if fraction_col else 0)
+        col_order = list(range(ncols))
+        if rng.random() < 0.6:
+            rng.shuffle(col_order)
+        nsamp = (nexp + 1) * max(1, C)
+        return {
+            "kind": "table",
+            "channels": C,
+            "exps": exps,
+            "fraction_col": fraction_col,
+            "design": design,
+            "groups": groups,
+            "minr": rng.choice([1, 2, 2, 3]),
+            "stab": rng.random() < 0.5,
+            "fast": rng.random() < 0.6,
+            "psm_fdr": rat(rng.choice([Fraction(1, 100), Fraction(1, 100), Fraction(1, 20)])),
+            "col_order": col_order,
+            "empty_zero": rng.random() < 0.5,
+            "via": "cli" if (nsamp < MIN_SAMPLES and rng.random() < 0.12 and not (design and design["format"] == "filelist")) else "inproc",
+        }
+
     def gen_case(self, rng, tier):
         r = rng.random()
         if r < self.BATCH_SHARE:
             return self.gen_batch_case(rng)
         if r < self.BATCH_SHARE + self.GRAPH_SHARE:
             return self.gen_graph_case(rng)
+        if r < self.BATCH_SHARE + self.GRAPH_SHARE + self.TABLE_SHARE:
+            return self.gen_table_case(rng)
         n = rng.choice([3, 3, 4, 4, 5, 6, 7, 8, 9, 10, 10, 11, 12, 14, 16])
         fast = rng.random() < (0.6 if n >= 10 else 0.3)
         stab = rng.random() < 0.5
@@ -714,6 +1088,8 @@ class P(Prop):
         if case.get("kind") == "graph":
             nodes, full, pnodes, pruned = run_prune(case["samples"], case["min_neighbors"], case["avg_neighbors"])
             return {"nodes": nodes, "full": full, "pnodes": pnodes, "pruned": pruned}
+        if case.get("kind") == "table":
+            return self.run_impl_table(case)
         n = case["n"]
         outs, rec = self._base(case)
         if len(rec["groups"]) != len(case["groups"]):
@@ -721,32 +1097,88 @@ class P(Prop):
         res = []
         ys = []
         for out, r in zip(outs, rec["groups"]):
-            g = {"lfq": out}
-            g["rows"] = sorted([k[0], k[1], [rat(x) for x in v]] for k, v in r.get("rows", {}).items())
-            g["total"] = rat(r.get("total", 0.0))
-            if "ratios" in r:
-                g["ratios"] = sorted([int(i), int(j), v] for (i, j), v in r["ratios"].items())
-                g["pairs"] = sorted([int(i), int(j)] for (i, j) in r["ratios"])
-            else:
-                g["ratios"], g["pairs"] = [], []
-            bb = r.get("b", r.get("ratios", {})) if case["stab"] else r.get("ratios", {})
-            g["b"] = sorted([int(i), int(j), v] for (i, j), v in bb.items())
-            if "matrix" in r:
-                g["matrix"] = sorted(r["matrix"])
-                g["vector"] = r["vector"]
-            else:
-                g["matrix"] = None
-            g["cert"] = True
+            g = impl_group_view(r, case["stab"])
+            g["lfq"] = out
             res.append(g)
             ys.append(r.get("y"))
         return {"groups": res, "_rec": {"graph": rec["graph"], "y": ys, "vector": [r.get("vector") for r in rec["groups"]]}}
 
+    def run_impl_table(self, case):
+        header, body, rec, seen = run_table(case)
+        ids = [row[header.index("Protein IDs")] for row in body]
+        by_id = {row[header.index("Protein IDs")]: row for row in body}
+        out = {"headers": [h for h in header if h.startswith("LFQ Intensity ")], "ids": ids, "groups": []}
+        inproc = case.get("via") != "cli"
+        if inproc:
+            out["experiments"] = seen.get("experiments")
+            if seen.get("ids") != ids or len(rec["groups"]) != len(ids):
+                raise AssertionError("recorded %d MaxLFQ calls for groups %r, the table has the rows %r" % (len(rec["groups"]), seen.get("ids"), ids))
+        for k, pid in enumerate(ids):
+            if inproc:
+                g = impl_group_view(rec["groups"][k], case["stab"])
+                g["lfq"] = rec["groups"][k]["out"]
+            else:
+                g = {}
+            g["id"] = pid
+            g["named"] = table_group_named(header, by_id[pid])
+            out["groups"].append(g)
+        out["_rec"] = {"graph": rec["graph"], "y": [r.get("y") for r in rec["groups"]], "vector": [r.get("vector") for r in rec["groups"]],
+                       "cutoff": seen.get("cutoff"), "channels": seen.get("channels")}
+        return out
+
     # -- the model --------------------------------------------------------------------------------
+    def model_request_table(self, case, impl_out):
+        import numpy as np
+
+        if case.get("via") == "cli" or not isinstance(impl_out, dict) or "groups" not in impl_out:
+            return None  # subprocess runs: nothing recorded, the oracle alone reads the written table
+        m, _ = table_design(case)
+        by_id = {g["id"]: g for g in case["groups"]}
+        groups, sols = [], []
+        for g, y in zip(impl_out["groups"], impl_out["_rec"]["y"]):
+            rows = sorted(by_id[g["id"]]["rows"], key=lambda r: r[8])
+            groups.append([[r[0], r[1], r[2], r[3], r[4], r[5], r[6], r[7]] for r in rows])
+            sols.append(None if y is None else [rat(float(v)) for v in np.exp(np.array(y))])
+        return {
+            "op": "lfqTable",
+            "channels": case["channels"],
+            "tmt": 0,
+            "design": None if m is None else [[k, v[0], v[1]] for k, v in m.items()],
+            "groups": groups,
+            "cutoff": rat(table_cutoff(case)),
+            "minr": case["minr"],
+            "stab": case["stab"],
+            "graph": impl_out["_rec"]["graph"] if case["fast"] else None,
+            "minSamples": MIN_SAMPLES,
+            "solutions": sols,
+        }
+
+    def model_view_table(self, case, resp, impl_out):
+        if "groups" not in resp:
+            return resp
+        ns = len(resp["experiments"]) * max(1, case["channels"])
+        out = {"experiments": resp["experiments"], "headers": resp["headers"], "ids": impl_out["ids"], "groups": []}
+        for r, y, g in zip(resp["groups"], impl_out["_rec"]["y"], impl_out["groups"]):
+            v = self._model_group_view(r, y, ns)
+            v["id"] = g["id"]
+            v["named"] = None if r.get("named") is None else [[h, fl(x)] for h, x in r["named"]]
+            out["groups"].append(v)
+        return out
+
+    def impl_view(self, case, impl_out):
+        v = Prop.impl_view(self, case, impl_out)
+        if case.get("kind") == "table" and isinstance(v, dict) and "groups" in v:
+            v = dict(v)
+            v["groups"] = [dict(g, named=[[h, float(t) if t != "" else float("nan")] for h, t in g["named"]]) for g in v["groups"]]
+        return v
+
     def model_request(self, case, impl_out):
         import numpy as np
 
         if case.get("kind") == "graph":
             return None  # build_graph / prune_graph are not modelled: contract checked by the oracle
+        if case.get("kind") == "table":
+            return self.model_request_table(case, impl_out)
         n = case["n"]
         graph = impl_out["_rec"]["graph"] if case["fast"] else None
         reqs = []
@@ -770,14 +1202,20 @@ class P(Prop):
         return reqs
 
     def model_view(self, case, resp, impl_out):
-        import numpy as np
-
+        if case.get("kind") == "table":
+            return self.model_view_table(case, resp, impl_out)
         n = case["n"]
         out = []
-        for r, y, vec in zip(resp, impl_out["_rec"]["y"], impl_out["_rec"]["vector"]):
+        for r, y in zip(resp, impl_out["_rec"]["y"]):
+            out.append(self._model_group_view(r, y, n))
+        return {"groups": out}
+
+    def _model_group_view(self, r, y, n):
+        import numpy as np
+
+        if True:
             if "keys" not in r:
-                out.append(r)
-                continue
+                return r
             g = {}
             g["rows"] = sorted(
                 [k[0], k[1], [rat(unrat(r["cols"][s][ri])) for s in range(n)]] for ri, k in enumerate(r["keys"])
@@ -816,14 +1254,24 @@ class P(Prop):
                 g["matrix"] = None
                 g["cert"] = True
             g["lfq"] = None if r["lfq"] is None else [fl(x) for x in r["lfq"]]
-            out.append(g)
-        return {"groups": out}
+            return g
 
     def equal(self, a, b):
         try:
             ga, gb = a["groups"], b["groups"]
             if len(ga) != len(gb):
                 return False
+            if "headers" in a or "headers" in b:  # written-table cases
+                for k in ("experiments", "headers", "ids"):
+                    if a[k] != b[k]:
+                        return False
+                for x, y in zip(ga, gb):
+                    if x["id"] != y["id"] or x["named"] is None or y["named"] is None or len(x["named"]) != len(y["named"]):
+                        return False
+                    for (h1, v1), (h2, v2) in zip(x["named"], y["named"]):
+                        # one side is the text written with '%.0f', the other the exact value
+                        if h1 != h2 or not abs(v1 - v2) <= TABLE_SLACK + 1e-9 * max(abs(v1), abs(v2)):
+                            return False
             for x, y in zip(ga, gb):
                 for k in ("rows", "total", "pairs", "matrix"):
                     if x[k] != y[k]:
@@ -887,6 +1335,9 @@ class P(Prop):
             why = check_graph_contract(impl_out["nodes"], impl_out["full"], impl_out["pnodes"], impl_out["pruned"])
             if why:
                 yield "graph-contract", "graph-contract: %s (min_neighbors=%d, avg_neighbors=%d)" % (why, case["min_neighbors"], case["avg_neighbors"])
+            return
+        if case.get("kind") == "table":
+            yield from self._table_failures(case, impl_out)
             return
         if not isinstance(impl_out, dict) or "groups" not in impl_out:
             if impl_out is not None:
@@ -996,6 +1447,76 @@ class P(Prop):
             if not vec_close(base[gi], o6[gi], tol6):
                 yield "sample-permutation[e2e]", "sample-permutation[e2e]: group %d LFQ %r became %r (re-indexed) under the sample permutation %r" % (gi, base[gi], o6[gi], perm)
 
+    def _table_failures(self, case, impl_out):
+        """the property on the WRITTEN table: the value under the header 'LFQ Intensity [<channel> ]<experiment>' is
+        taken as the LFQ intensity of that sample; expected values come from the evidence rows of the case alone
+        (own aggregation over fractions, own channel expansion, Fractions + lstsq)"""
+        if not isinstance(impl_out, dict) or "groups" not in impl_out:
+            if impl_out is not None:
+                yield "table-direct", "table: no written table: %r" % (impl_out,)
+            return
+        C = case["channels"]
+        chans = SILAC_NAMES[C] or [None]
+        exps, _where = table_samples(case)
+        ns = len(exps) * len(chans)
+        names = [lfq_header(e, ch) for e in exps for ch in chans]  # sample s = experiment index * C + channel index
+        got = impl_out["headers"]
+        if len(exps) > 1:
+            miss = [h for h in names if got.count(h) != 1]
+            extra = [h for h in got if h not in names]
+            if miss or extra:
+                yield "table-headers", "table: LFQ columns %r; expected one column for each of %r" % (got, names)
+                return
+        else:
+            return
+        cutoff = table_cutoff(case)
+        graph = impl_out.get("_rec", {}).get("graph") if case["fast"] else None
+        by_id = {g["id"]: g for g in impl_out["groups"]}
+        label = lambda s: "'%s'" % names[s]
+        for g in case["groups"]:
+            if g["id"] not in by_id:
+                yield "table-direct", "table: protein group %s has evidence rows but no row in the written table" % g["id"]
+                continue
+            cells = dict((h, t) for h, t in by_id[g["id"]]["named"])
+            try:
+                out = [float(cells[h]) for h in names]
+            except ValueError:
+                yield "table-direct", "table: group %s: LFQ cells %r are not numbers" % (g["id"], cells)
+                continue
+            sel, allp = table_precursors(case, g, cutoff)
+            gfac = [g["b"].get(e, [1] * len(chans))[c] for e in exps for c in range(len(chans))]
+            why = check_group_direct(ns, sel, cutoff, case["minr"], case["stab"], graph, out, gfac, TABLE_SLACK, allp, label)
+            if why:
+                yield "table-direct", "table: group %s (%d experiments x %d channels, read by header name): %s" % (g["id"], len(exps), C, why)
+            _, why = check_consistent_all_pairs(ns, sel, cutoff, case["minr"], case["stab"], out, gfac, TABLE_SLACK, allp, label)
+            if why:
+                yield "table-consistent", "table: group %s (%d experiments x %d channels, read by header name): %s" % (g["id"], len(exps), C, why)
+        if graph is not None and not is_connected(range(ns), graph):
+            # only where the graph is used: some group has >= MIN_SAMPLES valid sample columns
+            for g in case["groups"]:
+                sel, allp = table_precursors(case, g, cutoff)
+                if len(spec(ns, sel, cutoff, case["minr"], case["stab"], None, allp)["valid"]) >= MIN_SAMPLES:
+                    yield "graph-contract", "graph-contract: the FastLFQ sample graph used by append_columns does not connect the %d samples (%d experiments x %d channels; edges %r)" % (
+                        ns, len(exps), max(1, C), graph)
+                    break
+
+    def _table_applies(self, case, impl_out):
+        """for how many groups the consistent-data statement applies (hypotheses hold)"""
+        if not isinstance(impl_out, dict) or "groups" not in impl_out:
+            return 0
+        C = case["channels"]
+        chans = SILAC_NAMES[C] or [None]
+        exps, _ = table_samples(case)
+        ns = len(exps) * len(chans)
+        cutoff = table_cutoff(case)
+        k = 0
+        for g in case["groups"]:
+            sel, allp = table_precursors(case, g, cutoff)
+            gfac = [g["b"].get(e, [1] * len(chans))[c] for e in exps for c in range(len(chans))]
+            if check_consistent_all_pairs(ns, sel, cutoff, case["minr"], case["stab"], [1.0] * ns, gfac, 0.0, allp)[0]:
+                k += 1
+        return k
+
     def _perm_region(self, case, impl_out, cat):
         """which known region a sample-permutation failure lies in: "even", "fastlfq" or None (strict)"""
         if self._even_median_flip(case, impl_out):
@@ -1040,6 +1561,8 @@ class P(Prop):
     def nontrivial(self, case, impl_out):
         if case.get("kind") == "graph":  # pruning removed edges of a graph with at least 8 samples
             return isinstance(impl_out, dict) and len(impl_out.get("nodes", [])) >= 8 and len(impl_out.get("pruned", [])) < len(impl_out.get("full", []))
+        if case.get("kind") == "table":  # some LFQ cell of the written table is positive
+            return isinstance(impl_out, dict) and any(t not in ("", "0") for g in impl_out.get("groups", []) for _h, t in g.get("named", []))
         return isinstance(impl_out, dict) and any(g.get("pairs") for g in impl_out.get("groups", []))
 
     def features(self, case, impl_out):
@@ -1053,6 +1576,30 @@ class P(Prop):
                     f.append("graph-only:bridge-without-shared-peptides-kept")
                 if len(impl_out["pruned"]) < len(impl_out["full"]):
                     f.append("graph-only:pruned")
+            return f
+        if case.get("kind") == "table":
+            C = case["channels"]
+            exps, where = table_samples(case)
+            rows = [r for g in case["groups"] for r in g["rows"]]
+            f = ["kind=table", "table:via=%s" % case.get("via", "inproc"), "table:channels=%d" % C,
+                 "table:samples=%s" % ("<10" if len(exps) * max(1, C) < 10 else ">=10"),
+                 "table:design=%s" % (case["design"]["format"] if case.get("design") else "none"),
+                 "table:fraction-column=%s" % case["fraction_col"], "table:stab=%s" % case["stab"], "table:fast=%s" % case["fast"]]
+            cells = {}
+            for r in rows:
+                e, fr = where(r)
+                cells.setdefault((r[0], r[1], e), set()).add(fr)
+            if any(len(v) > 1 for v in cells.values()):
+                f.append("table:precursor-split-over-fractions")
+            if case.get("design") and any(where(r) != (r[3], r[4]) for r in rows):
+                f.append("table:design-overrides-evidence-cells")
+            if len(exps) > len({where(r)[0] for r in rows}):
+                f.append("table:experiment-without-rows")
+            if exps != sorted(exps):
+                f.append("table:experiments-not-in-name-order")
+            k = self._table_applies(case, impl_out)
+            if k:
+                f.append("table:consistent-statement-applies")
             return f
         n = case["n"]
         if "batches" in case:
@@ -1101,6 +1648,9 @@ class P(Prop):
                     yield dict(case, samples=sm[:i] + sm[i + 1 :])
             for pep in sorted({p for x in sm for p in x}):
                 yield dict(case, samples=[[p for p in x if p != pep] for x in sm])
+            return
+        if case.get("kind") == "table":
+            yield from self._shrink_table(case)
             return
         n = case["n"]
         groups = case["groups"]
@@ -1151,6 +1701,57 @@ class P(Prop):
             if len(g) <= 40:
                 for i in range(len(g)):
                     yield mk(groups=groups[:gi] + [g[:i] + g[i + 1 :]] + groups[gi + 1 :])
+        if case["minr"] > 1:
+            yield mk(minr=case["minr"] - 1)
+        if case["stab"]:
+            yield mk(stab=False)
+        if case["fast"]:
+            yield mk(fast=False)
+
+    def _shrink_table(self, case):
+        focus = case.get("_focus")
+        if focus is None:
+            try:
+                io = self.run_impl(case)
+                first = next(iter(self._failures(case, io)), None)
+            except Exception:
+                first = None
+            if first is not None:
+                focus = first[0]
+
+        def mk(**kw):
+            c = dict(case)
+            c.update(kw)
+            if focus is not None:
+                c["_focus"] = focus
+            return c
+
+        groups = case["groups"]
+        if len(groups) > 1:
+            for i in range(len(groups)):
+                yield mk(groups=groups[:i] + groups[i + 1 :])
+        # drop an experiment (by its evidence rows; design lines of unused raw files are harmless)
+        _exps, where = table_samples(case)
+        used = sorted({where(r)[0] for g in groups for r in g["rows"]})
+        if len(used) > 2:
+            for e in used:
+                gs = [dict(g, rows=[r for r in g["rows"] if where(r)[0] != e]) for g in groups]
+                if all(g["rows"] for g in gs):
+                    c = mk(groups=gs)
+                    if case.get("design"):
+                        c["design"] = dict(case["design"], lines=[ln for ln in case["design"]["lines"] if ln[1] != e])
+                    yield c
+        for gi, g in enumerate(groups):
+            for pep in sorted({r[0] for r in g["rows"]}):
+                rows = [r for r in g["rows"] if r[0] != pep]
+                if rows:
+                    yield mk(groups=groups[:gi] + [dict(g, rows=rows)] + groups[gi + 1 :])
+        for gi, g in enumerate(groups):
+            if 1 < len(g["rows"]) <= 40:
+                for i in range(len(g["rows"])):
+                    yield mk(groups=groups[:gi] + [dict(g, rows=g["rows"][:i] + g["rows"][i + 1 :])] + groups[gi + 1 :])
+        if case.get("col_order"):
+            yield mk(col_order=None)
         if case["minr"] > 1:
             yield mk(minr=case["minr"] - 1)
         if case["stab"]:
